@@ -127,7 +127,7 @@ def _sig_sticky_escapes(case: dict, f: Failure) -> bool:
     esc = re.compile(r"\\(?=[-=*_`~>#+.)\[|:\\])")
     def escape_positions(t: str) -> list[int]:
         # where the protecting backslashes stand, counted in the text without blanks, quote markers and escapes
-        out, n, body = [], 0, "".join(t.replace(">", "").split())
+        out, n, body = [], 0, "".join(re.sub(r"(?m)^[ \t>]+", "", t).split())
         k = 0
         while k < len(body):
             if esc.match(body, k):
@@ -142,8 +142,8 @@ def _sig_sticky_escapes(case: dict, f: Failure) -> bool:
         return False  # the same protecting backslashes in both: the difference is not one of escapes
 
     def norm(t: str) -> str:
-        # quote prefixes and all blanks are dropped (a '>' may also be a word of the text: dropped on both sides alike)
-        return "".join(esc.sub("", t).replace(">", "").split())
+        # quote prefixes (line starts only: a '>' word at a line start is always escaped there), escapes and blanks are dropped
+        return "".join(esc.sub("", re.sub(r"(?m)^[ \t>]+", "", t)).split())
 
     return norm(via) == norm(direct)
 
